@@ -26,7 +26,8 @@ Step ==
        [] E.ev = "Fatal" -> pending' = FALSE /\ Flag("fatal")
        [] E.ev = "Ret" ->
             /\ pending' = FALSE
-            /\ IF E.panic = 1 THEN Flag("panic")
+            /\ IF "hang" \in DOMAIN E /\ E.hang = 1 THEN Flag("hang")
+               ELSE IF E.panic = 1 THEN Flag("panic")
                ELSE IF E.op = "rt" THEN
                     IF E.encErr = 1 \/ E.decErr = 1 THEN Flag("roundtrip-error")
                     ELSE IF E.same = 0 THEN Flag("roundtrip-differs")
